@@ -241,8 +241,8 @@ def run_check(tier, seed, nworkers=None, nruns=None, budget_s=None, evidence_pat
                     # hidden state touched by a warm-server run of one known kind:
                     # remembered per state key, used to aim the second phase
                     if msg["scenario"] in ("samekind", "firstuse") and msg.get("focus") and \
-                            k.split(":", 1)[0] in ("slot-filled", "internal-changed",
-                                                   "new-name", "removed-internal"):
+                            k.split(":", 1)[0] in ("slot-filled", "internal-changed", "new-name",
+                                                   "removed-internal", "code-rebound"):
                         agg["state_probes"].setdefault(k, set()).add(msg["focus"])
                 agg["scenarios"][msg["scenario"]] += 1
                 agg["configs"][msg["config"]] += 1
